@@ -26,6 +26,7 @@ from vgi_rpc.metadata import (
     PROTOCOL_VERSION_KEY,
     REQUEST_VERSION,
     REQUEST_VERSION_KEY,
+    RPC_METHOD_KEY,
     SERVER_ID_KEY,
     SHM_OFFSET_KEY,
     SHM_SEGMENT_NAME_KEY,
@@ -94,7 +95,7 @@ from vgi_rpc.transport_options import (
     TRANSPORT_OPTIONS_METHOD_NAME,
     worker_transport_metadata,
 )
-from vgi_rpc.utils import IpcValidation, ValidatedReader, new_ipc_stream
+from vgi_rpc.utils import IPCError, IpcValidation, ValidatedReader, new_ipc_stream
 
 # ---------------------------------------------------------------------------
 # Server helpers
@@ -414,7 +415,17 @@ def _maybe_attach_shm(
     except (ValueError, UnicodeDecodeError):
         _logger.warning("Ignoring malformed SHM metadata: name=%r, size=%r", shm_name_bytes, shm_size_bytes)
         return None
-    return ShmSegment.attach(shm_name, shm_size, track=False)
+    try:
+        return ShmSegment.attach(shm_name, shm_size, track=False)
+    except (OSError, ValueError) as exc:
+        # The name and size are caller-supplied: a segment that does not
+        # exist, a name the OS refuses, a size it cannot map, or a segment
+        # that is not a VGI one are all "malformed values" for the purposes of
+        # this function.  The request is then handled without a segment (a
+        # pointer batch in it is refused with an ordinary error) instead of
+        # the exception escaping the serve loop.
+        _logger.warning("Ignoring unusable SHM segment %r (size %r): %s", shm_name, shm_size, exc)
+        return None
 
 
 class _ConnectionShm:
@@ -871,18 +882,39 @@ class RpcServer:
                 with contextlib.suppress(BrokenPipeError, OSError):
                     _write_error_stream(transport.writer, _EMPTY_SCHEMA, exc, server_id=self._server_id)
                 raise
-            except (VersionError, RpcError, ValueError, RuntimeError, LookupError, TypeError) as exc:
+            except (
+                VersionError,
+                RpcError,
+                IPCError,
+                ValueError,
+                RuntimeError,
+                LookupError,
+                TypeError,
+                ArithmeticError,
+            ) as exc:
                 # Besides the protocol-level rejections, _read_request can fail
                 # while *resolving* a request it has already read in full: a
                 # client-supplied external-location pointer that does not
                 # decode, is refused by the URL validator or cannot be fetched
-                # or verified raises ValueError/RuntimeError.  The request
-                # stream is consumed by then, so answer with a typed error and
-                # keep serving instead of letting the exception end the
-                # connection.  (Transport failures are OSError/EOFError and
+                # or verified raises ValueError/RuntimeError; a batch whose
+                # contents fail validation raises IPCError; a temporal value
+                # outside Python's range raises OverflowError on conversion.
+                # The request stream is consumed by then, so answer with a
+                # typed error and keep serving instead of letting the
+                # exception end the connection.  (Transport failures are OSError/EOFError and
                 # still propagate to serve().)
                 with contextlib.suppress(BrokenPipeError, OSError):
                     _write_error_stream(transport.writer, _EMPTY_SCHEMA, exc, server_id=self._server_id)
+                # If the refused request named a headerless stream method, its
+                # client still sends the stream's input (see
+                # _drain_refused_stream_input); the metadata was recorded
+                # before the failure, so the method can be looked up.
+                refused_md = _current_request_metadata.get()
+                refused_name = refused_md.get(RPC_METHOD_KEY) if refused_md is not None else None
+                if refused_name is not None:
+                    refused_info = self._methods.get(refused_name.decode(errors="replace"))
+                    if refused_info is not None:
+                        self._drain_refused_stream_input(transport, refused_info)
                 return
 
             # __transport_options__ — framework transport-capability handshake,
